@@ -4,7 +4,17 @@
      SS C P e p e' p' gv gw Qvv Qvw Qww  a_e[P] vs_e  a_e'[P] vs_e'    -> V a_e[P] vs_e a_e'[P] vs_e'
      SB C P e p e' p' gv gw Qvv Qvw Qww  a_e[P] 0     a_e'[P] 0        -> V a_e[P] 0 a_e'[P] 0
    (one update step of QpMcSimplexDecomp / QpMcBoxDecomp applied to the implementation's own
-   previous state of the two examples involved).  Same operations in the same order as the C++. *)
+   previous state of the two examples involved).  Same operations in the same order as the C++.
+   State model C16State (gradient, variable/example tables, shrinking), driven one operation at a time from the
+   implementation's own previous state:
+     MH id simplex P classes n C K k(n*n) M rows {def size {index value}*}*   constants (no output)
+     MI id y(n) lin(n*P)                                                      -> MS line of init_state
+     MS id actvar actex unshr V {alpha grad lin ex p idx diag}* E {orig y act vsum diag var[P] avar[P]}*   current state (no output)
+     MO id smo v w | shrink eps useShrinking | unshrink | addlin d(n*P)       -> MS line of mstep applied to the current state
+     MK ...                                                                   ignored (checked by tools/c16.py)
+   Linear solvers (C16Linear):
+     LS id type K d C eps y q wx[K] a[K+1] x[d] w[K*d]      -> V kkt gain a'[K+1] mu[K] w'[K*d]     (lin_step)
+     BL id bound reg offset n d sched[n] alpha[n] w[d] ysign[n] x[n*d]  -> V alpha'[n] w'[d]        (boxlin_epoch) *)
 open C16_model
 
 let rec nat_of_int n = if n <= 0 then O else S (nat_of_int (n - 1))
@@ -21,13 +31,143 @@ let micro = 1e-6
 let pf x = if x = 0.0 && 1.0 /. x < 0.0 then "-0x0p+0" else if x <> x then "nan" else Printf.sprintf "%h" x
 let fos s = match s with "inf" -> infinity | "-inf" -> neg_infinity | "nan" | "-nan" -> nan | _ -> float_of_string s
 
+(* ---- state model ---- *)
+type ctx = { simplex : bool; cp : int; ncl : int; n : int; cc : float; k0 : float array array;
+             mrows : (nat * float) list array; mdefs : float array }
+let ctx = ref None
+let cur : float mst option ref = ref None
+let tab_f (a : float array) : nat -> float = fun i -> let i = int_of_nat i in if i < Array.length a then a.(i) else 0.0
+let tab_n (a : int array) : nat -> nat = fun i -> let j = int_of_nat i in if j < Array.length a then nat_of_int a.(j) else i
+let tab2_n (a : int array array) : nat -> nat -> nat = fun e p ->
+  let e' = int_of_nat e and p' = int_of_nat p in
+  if e' < Array.length a && p' < Array.length a.(e') then nat_of_int a.(e').(p') else O
+let print_state id (c : ctx) (s : float mst) =
+  let b = Buffer.create 4096 in
+  let nv = c.cp * c.n in
+  Buffer.add_string b (Printf.sprintf "MS %s %d %d %d V" id (int_of_nat s.actvar) (int_of_nat s.actex) (if s.munshr then 1 else 0));
+  for v = 0 to nv - 1 do
+    let v' = nat_of_int v in
+    Buffer.add_string b (Printf.sprintf " %s %s %s %d %d %d %s" (pf (s.malpha v')) (pf (s.mgrad v')) (pf (s.mlin v'))
+      (int_of_nat (s.vex v')) (int_of_nat (s.vp v')) (int_of_nat (s.vidx v')) (pf (s.vdiag v')))
+  done;
+  Buffer.add_string b " E";
+  for e = 0 to c.n - 1 do
+    let e' = nat_of_int e in
+    (* QpMcBoxDecomp::Example has no varsum / diagonal members: the harness prints 0 for them *)
+    Buffer.add_string b (Printf.sprintf " %d %d %d %s %s" (int_of_nat (s.eorig e')) (int_of_nat (s.ey e')) (int_of_nat (s.eact e'))
+      (pf (if c.simplex then s.evsum e' else 0.0)) (pf (if c.simplex then s.ediag e' else 0.0)));
+    for p = 0 to c.cp - 1 do Buffer.add_string b (Printf.sprintf " %d" (int_of_nat (s.evar e' (nat_of_int p)))) done;
+    for p = 0 to c.cp - 1 do Buffer.add_string b (Printf.sprintf " %d" (int_of_nat (s.eavar e' (nat_of_int p)))) done
+  done;
+  print_endline (Buffer.contents b)
+
+let handle_m (t : string array) =
+  let f k = fos t.(k) and i k = int_of_string t.(k) in
+  match t.(0) with
+  | "MH" ->
+    let simplex = i 2 <> 0 and cp = i 3 and ncl = i 4 and n = i 5 and cc = f 6 in
+    let p = ref 8 in
+    let k0 = Array.init n (fun _ -> Array.init n (fun _ -> let x = f !p in incr p; x)) in
+    assert (t.(!p) = "M"); incr p;
+    let rows = i !p in incr p;
+    let mdefs = Array.make rows 0.0 and mrows = Array.make rows [] in
+    for r = 0 to rows - 1 do
+      mdefs.(r) <- f !p; incr p;
+      let sz = i !p in incr p;
+      let es = ref [] in
+      for _ = 1 to sz do es := (nat_of_int (i !p), f (!p + 1)) :: !es; p := !p + 2 done;
+      mrows.(r) <- List.rev !es
+    done;
+    ctx := Some { simplex; cp; ncl; n; cc; k0; mrows; mdefs }; cur := None
+  | "MK" -> ()
+  | _ ->
+    let c = match !ctx with Some c -> c | None -> failwith "state line before MH" in
+    let mrow r = let r = int_of_nat r in if r < Array.length c.mrows then c.mrows.(r) else [] in
+    let mdef = tab_f c.mdefs in
+    let k0 a b = let a = int_of_nat a and b = int_of_nat b in if a < c.n && b < c.n then c.k0.(a).(b) else 0.0 in
+    let np = nat_of_int c.cp and nn = nat_of_int c.n and ncl = nat_of_int c.ncl in
+    (match t.(0) with
+     | "MI" ->
+       let y = Array.init c.n (fun e -> i (2 + e)) in
+       let lin = Array.init c.n (fun e -> Array.init c.cp (fun p -> f (2 + c.n + e * c.cp + p))) in
+       let lin0 e p = let e = int_of_nat e and p = int_of_nat p in if e < c.n && p < c.cp then lin.(e).(p) else 0.0 in
+       print_state t.(1) c (init_state fops np ncl nn mrow mdef k0 (tab_n y) lin0)
+     | "MS" ->
+       let nv = c.cp * c.n in
+       let actvar = i 2 and actex = i 3 and unshr = i 4 <> 0 in
+       assert (t.(5) = "V");
+       let vb = 6 in
+       let fa o = Array.init nv (fun v -> f (vb + 7 * v + o)) and ia o = Array.init nv (fun v -> i (vb + 7 * v + o)) in
+       let eb = vb + 7 * nv + 1 in
+       assert (t.(eb - 1) = "E");
+       let w = 5 + 2 * c.cp in
+       let efa o = Array.init c.n (fun e -> f (eb + w * e + o)) and eia o = Array.init c.n (fun e -> i (eb + w * e + o)) in
+       let evar = Array.init c.n (fun e -> Array.init c.cp (fun p -> i (eb + w * e + 5 + p))) in
+       let eavar = Array.init c.n (fun e -> Array.init c.cp (fun p -> i (eb + w * e + 5 + c.cp + p))) in
+       cur := Some { malpha = tab_f (fa 0); mgrad = tab_f (fa 1); mlin = tab_f (fa 2); vex = tab_n (ia 3); vp = tab_n (ia 4);
+                     vidx = tab_n (ia 5); vdiag = tab_f (fa 6); eorig = tab_n (eia 0); ey = tab_n (eia 1); eact = tab_n (eia 2);
+                     evar = tab2_n evar; eavar = tab2_n eavar; evsum = tab_f (efa 3); ediag = tab_f (efa 4);
+                     actex = nat_of_int actex; actvar = nat_of_int actvar; munshr = unshr }
+     | "MO" ->
+       let s = match !cur with Some s -> s | None -> failwith "MO before MS" in
+       let shrinking = ref true in
+       let op = match t.(2) with
+         | "smo" -> MSmo (nat_of_int (i 3), nat_of_int (i 4))
+         | "shrink" -> shrinking := (i 4 <> 0); MShrink (f 3)
+         | "unshrink" -> MUnshrink
+         | "addlin" ->
+           let d = Array.init c.n (fun e -> Array.init c.cp (fun p -> f (3 + e * c.cp + p))) in
+           MAddLin (fun e p -> let e = int_of_nat e and p = int_of_nat p in if e < c.n && p < c.cp then d.(e).(p) else 0.0)
+         | x -> failwith ("unknown operation " ^ x) in
+       print_state t.(1) c (mstep fops lowest tiny np ncl nn c.cc mrow mdef k0 c.simplex !shrinking s op)
+     | _ -> ())
+
+let kind_of = function
+  | "WW" -> LWW | "LLW" -> LLLW | "ATS" -> LATS | "RI" -> LRI | "MMR" -> LMMR | "CS" -> LCS | "ADM" -> LADM | "ATM" -> LATM
+  | x -> failwith ("no linear solver kind " ^ x)
+
+let handle_lin (t : string array) =
+  let f k = fos t.(k) and i k = int_of_string t.(k) in
+  let b = Buffer.create 1024 in
+  Buffer.add_string b "V";
+  let add x = Buffer.add_char b ' '; Buffer.add_string b (pf x) in
+  (match t.(0) with
+   | "LS" ->
+     let kind = kind_of t.(2) and k = i 3 and d = i 4 and c = f 5 and eps = f 6 and y = i 7 and q = f 8 in
+     let p0 = 9 in
+     let wx = Array.init k (fun j -> f (p0 + j)) in
+     let a = Array.init (k + 1) (fun j -> f (p0 + k + j)) in
+     let x = Array.init d (fun j -> f (p0 + 2 * k + 1 + j)) in
+     let w = Array.init k (fun cc -> Array.init d (fun j -> f (p0 + 2 * k + 1 + d + cc * d + j))) in
+     let w0 cc j = let cc = int_of_nat cc and j = int_of_nat j in if cc < k && j < d then w.(cc).(j) else 0.0 in
+     let r = lin_step fops 1.0 (nat_of_int k) (float_of_int k) c kind eps q (nat_of_int y) (tab_f wx) (tab_f a) (tab_f x) w0 in
+     add r.r_kkt; add r.r_gain;
+     for j = 0 to k do add (r.r_al (nat_of_int j)) done;
+     for j = 0 to k - 1 do add (r.r_mu (nat_of_int j)) done;
+     for cc = 0 to k - 1 do for j = 0 to d - 1 do add (r.r_w (nat_of_int cc) (nat_of_int j)) done done
+   | _ ->
+     let bound = f 2 and reg = f 3 and offset = f 4 and n = i 5 and d = i 6 in
+     let p0 = 7 in
+     let sched = List.init n (fun j -> nat_of_int (i (p0 + j))) in
+     let al = Array.init n (fun j -> f (p0 + n + j)) in
+     let w = Array.init d (fun j -> f (p0 + 2 * n + j)) in
+     let ys = Array.init n (fun j -> f (p0 + 2 * n + d + j)) in
+     let xs = Array.init n (fun e -> Array.init d (fun j -> f (p0 + 3 * n + d + e * d + j))) in
+     let xs0 e j = let e = int_of_nat e and j = int_of_nat j in if e < n && j < d then xs.(e).(j) else 0.0 in
+     let (al', w') = boxlin_epoch fops 1.0 (nat_of_int d) bound reg offset (tab_f ys) xs0 (tab_f al, tab_f w) sched in
+     for j = 0 to n - 1 do add (al' (nat_of_int j)) done;
+     for j = 0 to d - 1 do add (w' (nat_of_int j)) done);
+  print_endline (Buffer.contents b)
+
 let () =
   let ic = open_in Sys.argv.(1) in
   (try
     while true do
       let l = input_line ic in
       let t = Array.of_list (List.filter (fun x -> x <> "") (String.split_on_char ' ' l)) in
-      if Array.length t > 0 && (String.length t.(0) > 0 && t.(0).[0] <> '#') then begin
+      if Array.length t > 0 && (t.(0) = "LS" || t.(0) = "BL") then handle_lin t
+      else if Array.length t > 0 && (t.(0) = "MH" || t.(0) = "MI" || t.(0) = "MS" || t.(0) = "MO" || t.(0) = "MK") then handle_m t
+      else if Array.length t > 0 && (String.length t.(0) > 0 && t.(0).[0] <> '#') then begin
         let f k = fos t.(k) in
         let out = Buffer.create 256 in
         Buffer.add_string out "V";
